@@ -341,6 +341,15 @@ where
             node.visit_with(self)
         }
 
+        fn visit_for_of_loop(&mut self, node: &'ast crate::statement::ForOfLoop) -> ControlFlow<Self::BreakTy> {
+            // `for await (.. of ..)` awaits on every iteration.
+            if self.0 == ContainsSymbol::AwaitExpression && node.r#await() {
+                return ControlFlow::Break(());
+            }
+
+            node.visit_with(self)
+        }
+
         fn visit_await(&mut self, node: &'ast Await) -> ControlFlow<Self::BreakTy> {
             if self.0 == ContainsSymbol::AwaitExpression {
                 return ControlFlow::Break(());
